@@ -89,7 +89,12 @@ impl<T> IpMatcher<T> {
         if let Some(remote_addr) = request.remote_addr.as_ref() {
             for (ip_cidr, matcher) in &self.matchers {
                 if ip_cidr.match_ip(remote_addr) {
-                    routes.extend(matcher.match_request(request));
+                    // a route with several matching ranges is stored in several buckets: report it once
+                    for route in matcher.match_request(request) {
+                        if !routes.iter().any(|known| Arc::ptr_eq(known, &route)) {
+                            routes.push(route);
+                        }
+                    }
                 }
             }
         }
